@@ -12,6 +12,7 @@ package mocker
 //        eval  : CreateWhen + When.Eval, nothing is patched
 // sig    n=<params without receiver>,v=<variadic>,m=<0 function|1 method|2 unexported method through As>,o=<results>
 // opts   s : argument expressions (arg.Any / arg.In objects) are shared between all places with the same text and type
+//        d : debug mode is switched on (OpenDebug) before the stub is installed, off again after the line
 // step   ret k | retx k cnt | when s,s,.. | when - | in alt alt .. | andret k | returns k k .. | matches a=k a=k ..
 //        call <recv|-> v,v,.. | call <recv|-> -          registration and calls may interleave freely
 //        conc <reps> <recv|->:<v,v,..|-> ...            one goroutine per tuple, each calling reps times after a barrier
@@ -43,8 +44,9 @@ func TestVerifC04(t *testing.T) {
 	out := vh.OpenOut()
 	defer out.Close()
 	start, _ := strconv.Atoi(os.Getenv("VERIF_START"))
+	end, _ := strconv.Atoi(os.Getenv("VERIF_END")) // exclusive; 0 = to the end
 	for _, op := range vh.ReadOps() {
-		if op.Idx < start || len(op.Toks) == 0 || op.Toks[0] != "c04" {
+		if op.Idx < start || (end > 0 && op.Idx >= end) || len(op.Toks) == 0 || op.Toks[0] != "c04" {
 			continue
 		}
 		out.Put(op.Idx, "%s", c04Run(op.Toks))
@@ -388,10 +390,17 @@ func c04Run(toks []string) (obs string) {
 	mode, name, sig := secs[0][1], secs[0][2], secs[0][3]
 	c := &c04Ctx{}
 	if len(secs[0]) == 5 {
-		if secs[0][4] != "s" {
-			return "bad-op"
+		for _, o := range secs[0][4] {
+			switch o {
+			case 's':
+				c.share = map[string]interface{}{}
+			case 'd':
+				OpenDebug()
+				defer CloseDebug()
+			default:
+				return "bad-op"
+			}
 		}
-		c.share = map[string]interface{}{}
 	}
 	for i := range c04Targets {
 		if c04Targets[i].name == name {
